@@ -22,10 +22,33 @@ Proof.
   intros [H1|[]] [H2|[]]. lia.
 Qed.
 
-Lemma wf_mu_root (C : circuit) (n : nat) : WF C n -> (2 <= n)%nat -> (2 <= mu C (root C))%nat.
+(* the size of a node's tree unfolding is at least the number of its leaves *)
+Lemma vars_le_mu (C : circuit) :
+  idx_ok C = true -> forall j, (j < length C)%nat -> (length (nth j (varss C) []) <= mu C j)%nat.
 Proof.
-  intros HWF Hn. pose proof (complete_range C n (wf_complete C n HWF)) as HV.
-  rewrite last_varss_root in HV. unfold mu. apply two_elements; apply HV; lia.
+  intros Hok.
+  apply (idx_induction C (fun j => (length (nth j (varss C) []) <= mu C j)%nat) Hok).
+  intros j Hj IH. rewrite (varss_unfold C Hok j Hj []), (mu_unfold C j Hok Hj).
+  assert (Hsum : forall cs, (forall c, In c cs -> (length (nth c (varss C) []) <= mu C c)%nat) ->
+                 (length (concat (map (fun c => nth c (varss C) []) cs)) <= musum C cs)%nat).
+  { clear. induction cs as [|c cs IHc]; intros H; [cbn; lia|]. cbn [map concat musum fold_right].
+    rewrite app_length. specialize (H c (or_introl eq_refl)) as Hc.
+    assert (Hr : (length (concat (map (fun c => nth c (varss C) []) cs)) <= musum C cs)%nat)
+      by (apply IHc; intros c' Hc'; apply H; now right).
+    unfold musum in Hr. lia. }
+  destruct (nth j C FalseN) as [l|cs|cs| |] eqn:E; cbn [vars_node mu_node children] in *;
+    try (cbn; lia); specialize (Hsum cs IH); rewrite mu_of_children_cs;
+    (destruct cs as [|c1 [|c2 cs]]; unfold mu_cs; [cbn in *; lia| |lia]);
+    cbn [musum fold_right] in Hsum; lia.
+Qed.
+
+Lemma wf_mu_root (C : circuit) (n : nat) : CWF C n -> (2 <= n)%nat -> (2 <= mu C (root C))%nat.
+Proof.
+  intros HWF Hn. pose proof (complete_range C n (cwf_complete C n HWF)) as HV.
+  rewrite last_varss_root in HV.
+  pose proof (vars_le_mu C (cwf_idx C n HWF) (root C) (root_lt C (cwf_nonempty C n HWF))) as Hle.
+  assert (2 <= length (nth (root C) (varss C) []))%nat; [|lia].
+  apply two_elements; apply HV; lia.
 Qed.
 
 (* every variable below a node is the variable of some leaf of the vector *)
@@ -60,13 +83,13 @@ Qed.
 Section Final.
 Variables (C : circuit) (n : nat) (st : tstate).
 Let N := Z.of_nat n.
-Hypothesis HWF : WF C n.
+Hypothesis HWF : CWF C n.
 Hypothesis Hreach : all_reachable C = true.
 Hypothesis Hn : (2 <= n)%nat.
 Hypothesis Hrun : run (length C) C (init_state n) = Done st.
 
-Let Hne : C <> [] := wf_nonempty C n HWF.
-Let Hok : idx_ok C = true := wf_idx C n HWF.
+Let Hne : C <> [] := cwf_nonempty C n HWF.
+Let Hok : idx_ok C = true := cwf_idx C n HWF.
 Let Hlits : lits_ok n C := wf_lits_ok C n HWF Hreach.
 Let HS : Shape n C st := shape_run n (length C) C st Hok Hlits Hrun.
 Let HN : Nodes C st := nodes_run n (length C) C st Hok Hlits Hrun.
@@ -173,8 +196,8 @@ Proof.
   - destruct (Nat.eq_dec j (root C)) as [->|Hneq]; [lia|].
     destruct (parent_exists C j Hok Hreach ltac:(lia)) as [p [Hp Hc]].
     destruct (children_op _ _ Hc) as [op [cs [Hop Hin]]].
-    destruct (nd_node C st HN p ltac:(lia)) as [_ [_ [_ H4]]].
-    destruct (H4 op cs Hop) as [_ [Hs Hm]].
+    destruct (nd_node C st HN p ltac:(lia)) as [_ H4].
+    destruct (H4 op cs Hop) as [Hs Hm].
     destruct cs as [|c1 [|c2 cs]]; [destruct Hin| |].
     + destruct Hin as [->|[]]. rewrite <- (Hs j eq_refl). apply IH; try lia. now rewrite (Hs j eq_refl).
     + specialize (Hm ltac:(cbn; lia)). eexists. split; [exact Hm|]. cbn [b_lits].
@@ -225,7 +248,7 @@ Proof.
     + cbn in H. destruct H as [<-|[]]. lia.
   - intros Hv. left. destruct (Z_le_gt_dec v N) as [Hf|Ht].
     + (* a feature: it is the variable of a leaf, whose literal is used by a biconditional *)
-      pose proof (complete_range C n (wf_complete C n HWF)) as HV. rewrite last_varss_root in HV.
+      pose proof (complete_range C n (cwf_complete C n HWF)) as HV. rewrite last_varss_root in HV.
       assert (Hin : In v (nth (root C) (varss C) [])) by (apply HV; fold N; lia).
       destruct (vars_leaf C Hok (root C) Hrl v Hin) as [i [l [Hi [Hnth Habs]]]].
       destruct (nd_node C st HN i Hi) as [H1 _]. specialize (H1 l Hnth).
